@@ -63,7 +63,7 @@ MANIFEST = dict(
                 "checker of the statement on the implementation's own trace (proved sound against the theorem's spec)."),
     level_note=("Trusted: Coq kernel + vm_compute; hand-written model validated only on sampled histories; lock atomicity assumed; "
                 "LRU level cache not modelled; wildcard characters inside topic NAMES are modelled as the code behaves but excluded "
-                "from the property; known finding KF-C14-abort-on-malformed (multi-filter packet with a malformed filter leaves residue)."),
+                "from the property; finding KF-C14-abort-on-malformed (multi-filter packet with a malformed filter left residue) was repaired by a fix: commit; the entry is `fixed` and suppresses nothing."),
     technique="Coq proof (induction over level lists and op histories, refinement to a declarative live map) + model/implementation correspondence by vm_compute",
 )
 
